@@ -18,8 +18,10 @@ def len_terms(expr, var):
         if t in ("HEADER_SIZE", "crate::constants::HEADER_SIZE", "crate::HEADER_SIZE", "constants::HEADER_SIZE"): terms.append("header")
         elif t == f"{var}.query.len()": terms.append("query")
         elif t == f"{var}.body.len()": terms.append("body")
-        else: raise ExtractError(f"length expression: unrecognised summand `{t}`")
-    return terms
+        elif t == f"{var}.serialized_len()": terms += ["header", "query", "body"]
+        else: return []      # not understood: pessimistic (measures nothing), never the default
+    # a sum does not depend on the order of its summands: canonical order (duplicates are kept)
+    return sorted(terms, key=["header", "query", "body"].index)
 
 
 def binary_constructions(src):
@@ -40,17 +42,35 @@ def extract():
     f = {}
     lim = test_mod_cut(strip(read("src/websocket_limits.rs")))
     body = fn_body(lim, "check_outbound")
-    m = re.search(r"match self\.assumed_peer_frame_limit\s*\{\s*Some\(limit\)\s+if\s+size\s*(>=|<=|==|!=|>|<)\s*limit\s*=>\s*Err\(", body)
-    if not m: raise ExtractError("check_outbound: guard `Some(limit) if size OP limit => Err(..)` not recognised")
-    if not re.search(r"_\s*=>\s*Ok\(\(\)\)", body): raise ExtractError("check_outbound: fall-through arm")
-    if len(re.findall(r"=>", body)) != 2: raise ExtractError("check_outbound: more than two arms")
-    f["cmp"] = CMP[m.group(1)]
+    FLIP = {">": "<", "<": ">", ">=": "<=", "<=": ">=", "==": "==", "!=": "!="}
+    OPS = r"(>=|<=|==|!=|>|<)"
+    forms = [  # (regex, operands swapped?) — the recognised ways of writing the guard
+        (r"match self\.assumed_peer_frame_limit\s*\{\s*Some\(limit\)\s+if\s+size\s*" + OPS + r"\s*limit\s*=>\s*Err\([^;]*?_\s*=>\s*Ok\(\(\)\),?\s*\}\s*$", False),
+        (r"match self\.assumed_peer_frame_limit\s*\{\s*Some\(limit\)\s+if\s+limit\s*" + OPS + r"\s*size\s*=>\s*Err\([^;]*?_\s*=>\s*Ok\(\(\)\),?\s*\}\s*$", True),
+        (r"if let Some\(limit\)\s*=\s*self\.assumed_peer_frame_limit\s*\{\s*if\s+size\s*" + OPS + r"\s*limit\s*\{\s*return Err\([^;]*\);\s*\}\s*\}\s*Ok\(\(\)\)\s*$", False),
+        (r"if let Some\(limit\)\s*=\s*self\.assumed_peer_frame_limit\s*\{\s*if\s+limit\s*" + OPS + r"\s*size\s*\{\s*return Err\([^;]*\);\s*\}\s*\}\s*Ok\(\(\)\)\s*$", True),
+    ]
+    f["cmp"] = None
+    for rx, swapped in forms:
+        m = re.search(rx, body.strip(), re.S)
+        if m and len(re.findall(r"=>", body)) <= 2:
+            op = m.group(1)
+            f["cmp"] = CMP[FLIP[op] if swapped else op]
+            break
+    if f["cmp"] is None:
+        # the guard exists in a form that is not understood (extra terms, extra arms, other operands):
+        # that is exactly where a wrong boundary would hide -> pessimistic fact, the proofs must not go through
+        if "Err(" in body and "assumed_peer_frame_limit" in body: f["cmp"] = "lt"
+        else: raise ExtractError("check_outbound: no guard found")
 
     srv = test_mod_cut(strip(read("src/websocket_server.rs")))
     fo = fn_body(srv, "frame_outbound")
     m = re.search(r"let frame_len\s*=([^;]*);", fo)
     if not m: raise ExtractError("frame_outbound: `let frame_len = …`")
     f["lenTerms"] = len_terms(m.group(1), "m")
+    if "serialized_len" in m.group(1):
+        msg_src = test_mod_cut(strip(read("src/message.rs")))
+        if "".join(fn_body(msg_src, "serialized_len").split()) != "HEADER_SIZE+self.query.len()+self.body.len()": f["lenTerms"] = []
     chk = re.search(r"let Err\(err\)\s*=\s*limits\.check_outbound\(frame_len\)\s*else\s*\{\s*return Some\(m\.into_wire_bytes\(\)\);\s*\};", fo)
     if not chk: raise ExtractError("frame_outbound: check/let-else form")
     rest = fo[chk.end():]
@@ -64,6 +84,7 @@ def extract():
     f["reports"] = bool(p_rep) and p_rep.start() < p_rpl.start() and (first_return is None or p_rep.start() < first_return.start())
     f["notifyDrops"] = bool(p_not) and p_not.start() < p_rpl.start()
     keeps = re.search(r"let id\s*=\s*m\.header\.id;", rest) and re.search(r"replacement\.header\.id\s*=\s*id;", rest)
+    if len(re.findall(r"replacement\.header\.id\s*=", rest)) != 1: keeps = None
     if not re.search(r"Some\(replacement\.into_wire_bytes\(\)\)\s*$", rest.strip()): raise ExtractError("frame_outbound: tail expression")
     f["keepsId"] = bool(keeps)
     # every binary send in the server file sends a `bytes` that can only have come from frame_outbound
